@@ -2,6 +2,10 @@ package checks
 
 import (
 	"fmt"
+	"path/filepath"
+	"sync"
+
+	"bklverif/fsx"
 
 	"bklverif/gen"
 	"bklverif/real"
@@ -100,6 +104,67 @@ func streamSession(g *gen.G, idx int) Sess {
 	return Sess{Lines: lines, Meta: map[string]any{"calls": meta}}
 }
 
+// streamLayout: the same kind of stream layering, written as layer files
+// a <- a.b <- a.b.c (multi-document files, document-level $match) and run
+// through the real bkl binary; validated against RunLayers.
+func streamLayout(g *gen.G) *layout {
+	l := &layout{Fs: map[string]fsx.Entry{}, Root: "/"}
+	nb := 1 + g.N(3)
+	shape := g.Map(2)
+	var base []any
+	for i := 0; i < nb; i++ {
+		var m map[string]any
+		if i > 0 && g.P(0.5) {
+			m = gen.Clone(shape).(map[string]any)
+		} else {
+			m = g.Map(2)
+		}
+		delete(m, "$match")
+		delete(m, "$parent")
+		m["id"] = i
+		base = append(base, m)
+	}
+	name := "a"
+	exts := []string{"yaml", "json", "yml", "jsonl"}
+	l.Fs["/w/"+name+"."+g.Pick(exts)] = fsx.Entry{Kind: "file", Docs: toTagged(base)}
+	last := ""
+	for p := range l.Fs {
+		last = filepath.Base(p)
+	}
+	cur := base
+	for j := 1 + g.N(2); j > 0; j-- {
+		nd := 1 + g.N(2)
+		var docs []any
+		for k := 0; k < nd; k++ {
+			target := cur[g.N(len(cur))]
+			data, ok := g.Patch(target, 2).(map[string]any)
+			if !ok {
+				data = map[string]any{"extra": g.N(5)}
+			}
+			delete(data, "$match")
+			delete(data, "$parent")
+			switch r := g.N(10); {
+			case r < 5:
+			case r < 6:
+				data["$match"] = map[string]any{}
+			case r < 8:
+				data["$match"] = map[string]any{"id": g.N(nb + 1)}
+			case r < 9:
+				data["$match"] = nil
+			default:
+				data["$match"] = map[string]any{"id": g.N(nb), "$invert": true}
+			}
+			docs = append(docs, data)
+		}
+		name += "." + string(rune('a'+j))
+		ext := g.Pick(exts)
+		l.Fs["/w/"+name+"."+ext] = fsx.Entry{Kind: "file", Docs: toTagged(docs)}
+		last = name + "." + ext
+	}
+	l.Inputs = []string{last}
+	return l
+}
+
 func C02(r *Run) {
 	st := modelHistories(r, "C02", r.Pick(3, 4))
 	r.Logf("model: %d states, %d histories replayed", st.States, st.Replayed)
@@ -113,6 +178,31 @@ func C02(r *Run) {
 		distinct[string(J(sessions[i].Meta))] = true
 	}
 	r.Logf("generated %d sessions", n)
+	// the file route
+	nf := r.Pick(300, 6000)
+	var mu sync.Mutex
+	var wg sync.WaitGroup
+	sem := make(chan struct{}, Cores())
+	files := 0
+	for i := 0; i < nf; i++ {
+		l := streamLayout(g)
+		wg.Add(1)
+		sem <- struct{}{}
+		go func() {
+			defer wg.Done()
+			defer func() { <-sem }()
+			sess, ok := runSession(r, l, false)
+			if !ok {
+				return
+			}
+			mu.Lock()
+			sessions = append(sessions, sess)
+			files++
+			mu.Unlock()
+		}()
+	}
+	wg.Wait()
+	r.Cov["file_route_layouts"] = files
 	res := r.Validate("C02", sessions, nil)
 	for _, b := range res.Bad {
 		s := sessions[b.Session]
@@ -126,6 +216,6 @@ func C02(r *Run) {
 	r.Cov["trace_events_compared"] = res.Checked
 	r.Cov["evaluations"] = len(sessions)
 	r.Cov["distinct_nontrivial"] = len(distinct)
-	r.Cov["rule"] = "base streams of 1-4 documents (+ an unrelated one), 1-3 layers of 1-3 documents, $match absent/{}/pattern/null/invert/miss; distinct = distinct call sequences"
+	r.Cov["rule"] = "base streams of 1-4 documents (+ an unrelated one), 1-3 layers of 1-3 documents, $match absent/{}/pattern/null/invert/miss, through successive MergeDocument calls on one Parser and through layer files (a <- a.b <- a.b.c, multi-document files) run by the real bkl; distinct = distinct call sequences"
 	r.Cov["checker_cmd"] = first(res.Cmds)
 }
